@@ -433,6 +433,14 @@ fn test_zoned(c: &ZCase, cx: &mut Cx) -> CaseResult {
             return Ok(());
         }
         let next = last + 1;
+        if !rz::in_ts_range(first) || !rz::in_ts_range(next) {
+            // the first and the last civil day of the supported range: the day begins before
+            // Timestamp::MIN (ends after Timestamp::MAX), so "the elapsed fraction of that day's
+            // real length" is not computable inside the type. jiff refuses (documented: an error
+            // when the start of the day cannot be found); not judged.
+            cx.tolerate("civil-day-bounds-outside-the-timestamp-range");
+            return Ok(());
+        }
         let len = next - first;
         cx.class_if(len != NS_PER_DAY, "day-length!=24h");
         cx.nt_if(len != NS_PER_DAY);
